@@ -37,10 +37,11 @@
 (*     violated, the offending route being part of the counterexample      *)
 (*     state (variable last).                                              *)
 (*                                                                         *)
-(* State: firstRun, users, sessions (token -> expiry), clock -- and last,  *)
-(* the request just served with its outcome.  Install, Login, Logout and   *)
-(* Tick move the state; Serve(route, request) is explored from every       *)
-(* reachable state for every route and every request shape.                *)
+(* State: firstRun, users, sessions (token -> expiry) with their persisted  *)
+(* copy store, clock -- and last, the request just served with its         *)
+(* outcome.  Install, Login, Logout, Tick and Restart move the state;      *)
+(* Serve(route, request) is explored from every reachable state for every  *)
+(* route and every request shape.                                          *)
 (***************************************************************************)
 EXTENDS Naturals, Sequences, FiniteSets, TLC, Json, RoutesGenerated
 
@@ -48,12 +49,14 @@ CONSTANT DoEmit     \* TRUE in the vector-generating configuration
 
 VARIABLES firstRun,   \* no configuration yet: only the install wizard is served
           users,      \* configured administrator accounts
-          sessions,   \* function: issued session token -> expiry time
+          sessions,   \* function: issued session token -> expiry time (in memory)
+          store,      \* the same table as persisted in sessions.db; survives Restart
+          hist,       \* history of tokens that are no longer sessions: how they ended
           clock,
           last,       \* None, or the request just served with its outcome
           focus       \* None, or the route whose requests are being explored
 
-vars == <<firstRun, users, sessions, clock, last, focus>>
+vars == <<firstRun, users, sessions, store, hist, clock, last, focus>>
 
 None == [none |-> TRUE]
 
@@ -73,6 +76,9 @@ MisSpelled == {"declLower", "declMixed"}
 Methods    == {"GET", "POST", "PUT", "DELETE"} \cup MisSpelled
 Mutating   == {"POST", "PUT", "DELETE"}             \* control.go modifiesData
 CTypes    == {"none", "json", "form"}
+\* How a body is framed: no body, a body announced by Content-Length, a body of
+\* unknown length (Transfer-Encoding: chunked; the server sees length -1).
+Bodies    == {"none", "length", "chunked"}
 Cookies   == {"none", "tX"} \cup Tokens
 Basics    == {"none", "wrong", "right"}
 Spellings == {"canonical", "trailingSlash", "dotSegment", "doubleSlash"}
@@ -105,13 +111,20 @@ CookieClass(c) == IF c = "none" THEN "none"
                   ELSE IF sessions[c] <= clock THEN "expired"
                   ELSE "valid"
 
+\* The finer label under which vectors are emitted: a token that is no session
+\* any more is "unknown" to the mechanism, but the harness has to present a
+\* cookie with that very history (logged out; logged out and then the server
+\* restarted; expired and then the server restarted).
+CookieLabel(c) == IF c \in DOMAIN hist /\ c \notin DOMAIN sessions THEN hist[c] ELSE CookieClass(c)
+
 \* "a valid unexpired session cookie or correct basic credentials"
 Authenticated(q) == CookieClass(q.cookie) = "valid" \/ q.basic = "right"
 
-\* "a JSON content type": a body must be declared JSON; a request without a
-\* body carries no content type at all.
-JSONOnly(q) == \/ q.body /\ q.ctype = "json"
-               \/ ~q.body /\ q.ctype = "none"
+\* "a JSON content type": a body -- in whatever framing -- must be declared
+\* JSON; a request without a body carries no content type at all.
+HasBody(q)  == q.body # "none"
+JSONOnly(q) == \/ HasBody(q) /\ q.ctype = "json"
+               \/ ~HasBody(q) /\ q.ctype = "none"
 
 \* ------------------------------------------------------------- dispatch
 RoutesAt(pat) == {r \in Routes : r.pat = pat}
@@ -178,7 +191,7 @@ Run(r, e, q, i) ==
       [] w = "ensure" ->
             IF q.method # r.method THEN {"m405"}
             ELSE IF r.method \in Mutating /\ ~JSONOnly(q)
-                 THEN (IF q.body /\ q.ctype = "jsonParam" THEN {"c415"} \cup next ELSE {"c415"})
+                 THEN (IF HasBody(q) /\ q.ctype = "jsonParam" THEN {"c415"} \cup next ELSE {"c415"})
                  ELSE next
       [] OTHER -> next   \* a wrapper the extractor has no meaning for protects nothing
 
@@ -240,14 +253,15 @@ Bad(q, o) == {n \in {"NoUnauthenticatedHandler", "MutatingNeedsMethodAndJSON",
 \* itself (301 to the cleaned path, before any route is consulted) content type
 \* and body are not varied; mis-spelled method tokens are sent to the canonical
 \* path only.
-Shape(q) == /\ q.spelling \in {"dotSegment", "doubleSlash"} => q.ctype = "none" /\ ~q.body
+Shape(q) == /\ q.spelling \in {"dotSegment", "doubleSlash"} => q.ctype = "none" /\ q.body = "none"
+            /\ q.body = "chunked" => q.spelling = "canonical"
             /\ q.method \in MisSpelled => q.spelling = "canonical"   \* one dimension at a time
-Requests == {q \in [method : Methods, ctype : CTypes, body : BOOLEAN, cookie : Cookies,
+Requests == {q \in [method : Methods, ctype : CTypes, body : Bodies, cookie : Cookies,
                     basic : Basics, spelling : Spellings] : Shape(q)}
 
 Init == /\ last = None /\ focus = None
         /\ clock = 0
-        /\ sessions = <<>>
+        /\ sessions = <<>> /\ store = <<>> /\ hist = <<>>
         /\ \/ firstRun = TRUE  /\ users = {}
            \/ firstRun = FALSE /\ users \in {{}, {Admin}}
 
@@ -255,21 +269,40 @@ Init == /\ last = None /\ focus = None
 \* (controlinstall.go handleInstallConfigure).
 Install == /\ last = None /\ firstRun /\ users = {}
            /\ firstRun' = FALSE /\ users' = {Admin}
-           /\ UNCHANGED <<sessions, clock, last, focus>>
+           /\ UNCHANGED <<sessions, store, hist, clock, last, focus>>
 
-\* A successful login issues a token valid for TTL.
-Login(t) == /\ last = None /\ ~firstRun /\ users # {} /\ t \notin DOMAIN sessions
+Put(f, t, e) == [x \in DOMAIN f \cup {t} |-> IF x = t THEN e ELSE f[x]]
+Drop(f, T)   == [x \in DOMAIN f \ T |-> f[x]]
+
+\* A successful login issues a fresh token valid for TTL, in memory and in the
+\* store.
+Login(t) == /\ last = None /\ ~firstRun /\ users # {}
+            /\ t \notin DOMAIN sessions /\ t \notin DOMAIN hist
             /\ clock + TTL <= MaxClock
-            /\ sessions' = [x \in DOMAIN sessions \cup {t} |-> IF x = t THEN clock + TTL ELSE sessions[x]]
-            /\ UNCHANGED <<firstRun, users, clock, last, focus>>
+            /\ sessions' = Put(sessions, t, clock + TTL) /\ store' = Put(store, t, clock + TTL)
+            /\ UNCHANGED <<firstRun, users, hist, clock, last, focus>>
 
-Logout(t) == /\ last = None /\ t \in DOMAIN sessions
-             /\ sessions' = [x \in DOMAIN sessions \ {t} |-> sessions[x]]
+\* Logout ends the session for good: in memory AND in the store.
+Logout(t) == /\ last = None /\ t \in DOMAIN sessions /\ sessions[t] > clock
+             /\ sessions' = Drop(sessions, {t}) /\ store' = Drop(store, {t})
+             /\ hist' = Put(hist, t, "loggedOut")
              /\ UNCHANGED <<firstRun, users, clock, last, focus>>
 
 Tick == /\ last = None /\ clock < MaxClock /\ DOMAIN sessions # {}
         /\ clock' = clock + 1
-        /\ UNCHANGED <<firstRun, users, sessions, last, focus>>
+        /\ UNCHANGED <<firstRun, users, sessions, store, hist, last, focus>>
+
+\* The process (the auth module) restarts: memory is rebuilt from the store,
+\* sessions that have expired meanwhile are purged from both.  A session that
+\* was logged out is not in the store and does not come back.
+Restart == /\ last = None /\ ~firstRun /\ users # {}
+           /\ (DOMAIN hist # {} \/ DOMAIN store # {})
+           /\ LET dead == {t \in DOMAIN store : store[t] <= clock} IN
+              /\ sessions' = Drop(store, dead) /\ store' = Drop(store, dead)
+              /\ hist' = [t \in DOMAIN hist \cup dead |->
+                            IF t \in dead THEN "expiredRestarted"
+                            ELSE IF hist[t] = "loggedOut" THEN "loggedOutRestarted" ELSE hist[t]]
+           /\ UNCHANGED <<firstRun, users, clock, last, focus>>
 
 \* One request.  Whatever the outcome, the only state the request layer
 \* itself touches is an expired session, which is dropped when it is seen;
@@ -278,14 +311,15 @@ Serve(r, t, q) ==
     /\ \E o \in Outcomes(r, t, q) :
          last' = [route |-> r.pat, site |-> r.site, reg |-> r.reg, target |-> t, req |-> q,
                   cookieClass |-> CookieClass(q.cookie), o |-> o]
-    /\ sessions' = IF CookieClass(q.cookie) = "expired"
-                   THEN [x \in DOMAIN sessions \ {q.cookie} |-> sessions[x]] ELSE sessions
-    /\ UNCHANGED <<firstRun, users, clock, focus>>
+    /\ IF CookieClass(q.cookie) = "expired"
+       THEN sessions' = Drop(sessions, {q.cookie}) /\ store' = Drop(store, {q.cookie})
+       ELSE UNCHANGED <<sessions, store>>
+    /\ UNCHANGED <<firstRun, users, hist, clock, focus>>
 
 \* Purely a device for TLC: the successors of one state are computed by one
 \* worker, so the exploration of the request universe is split per route.
 Focus(r) == /\ focus = None /\ focus' = r
-            /\ UNCHANGED <<firstRun, users, sessions, clock, last>>
+            /\ UNCHANGED <<firstRun, users, sessions, store, hist, clock, last>>
 
 \* Vector generation: one line per (state, route, target, method, spelling)
 \* carrying the verdict table over ctype x body x cookie x basic, one row
@@ -293,11 +327,11 @@ Focus(r) == /\ focus = None /\ focus' = r
 \* registration, admissible outcomes, violated requirements>> per request.  The
 \* cookie is reported by class; the classes present depend on the state.
 Table(r, t, m, sp) ==
-    [x \in {y \in {<<ct, b, ck, ba>> : ct \in CTypes, b \in BOOLEAN, ck \in Cookies, ba \in Basics} :
+    [x \in {y \in {<<ct, b, ck, ba>> : ct \in CTypes, b \in Bodies, ck \in Cookies, ba \in Basics} :
                 Shape([ctype |-> y[1], body |-> y[2], spelling |-> sp, method |-> m])} |->
         LET q == [method |-> m, ctype |-> x[1], body |-> x[2], cookie |-> x[3], basic |-> x[4],
                   spelling |-> sp]
-        IN {<<x[1], x[2], CookieClass(x[3]), x[4],
+        IN {<<x[1], x[2], CookieLabel(x[3]), x[4],
               (IF o.e.disp = "none" THEN "none" ELSE IF o.e.norm THEN "redirect" ELSE o.e.pat),
               o.by.site, o.outs, Bad(q, o)>> :
                 o \in Outcomes(r, t, q)}]
@@ -320,6 +354,7 @@ EmitTables == /\ \E t \in Targets(focus) : \E m \in Methods, sp \in Spellings :
 Skeleton == \/ Install
             \/ \E t \in Tokens : Login(t) \/ Logout(t)
             \/ Tick
+            \/ Restart
             \/ \E r \in Routes : Focus(r)
 
 Next == /\ last = None
@@ -331,8 +366,15 @@ Spec == Init /\ [][Next]_vars
 
 \* ------------------------------------------------------------ invariants
 TypeOK == /\ firstRun \in BOOLEAN /\ (focus = None \/ focus \in Routes) /\ users \subseteq {Admin} /\ clock \in 0..MaxClock
-          /\ DOMAIN sessions \subseteq Tokens
+          /\ DOMAIN sessions \subseteq Tokens /\ DOMAIN hist \subseteq Tokens
           /\ (firstRun => users = {})
+
+\* Design properties of the session table itself (they hold by construction of
+\* the actions; the conformance replay binds them to the code): memory and
+\* store agree, and a session that was ended -- by logout, or by expiry seen at
+\* a restart -- never is a session again.
+StoreAgrees    == store = sessions
+NoResurrection == \A t \in DOMAIN hist : t \notin DOMAIN sessions
 
 NoUnauthenticatedHandler   == last # None => P_NoUnauth(last.req, last.o)
 \* The same requirement read as the statement's last sentence: whatever runs
